@@ -295,7 +295,10 @@ func init() {
 			e1 := &ugo.Error{Name: "E1"}
 			wrappers := []ugo.Object{e1, &ugo.RuntimeError{Err: e1}, &ugo.RuntimeError{Err: e1}, &ugo.Error{Name: "E1"},
 				&ugo.SyncMap{Value: ugo.Map{"a": ugo.Int(1)}}, &ugo.SyncMap{Value: ugo.Map{}}, ugo.Map{"a": ugo.Int(1)}, ugo.Map{},
-				ugo.Array{&ugo.RuntimeError{Err: e1}}, ugo.Array{e1}, ugo.Undefined, ugo.Int(1)}
+				ugo.Array{&ugo.RuntimeError{Err: e1}}, ugo.Array{e1}, ugo.Undefined, ugo.Int(1),
+				// errors derived from one another (e.New: a new error whose cause is the parent), library errors
+				e1.NewError("derived"), e1.NewError("derived").NewError("twice"), ugo.ErrType, ugo.ErrType.NewError("x"),
+				&ugo.Error{Name: "E1", Cause: e1}, ugo.Array{ugo.ErrType.NewError("x")}, ugo.Map{"k": e1.NewError("derived")}, ugo.Map{"k": e1}}
 			for _, a := range wrappers {
 				for _, b := range wrappers {
 					opsOracle(c, vm, a, b)
